@@ -169,6 +169,54 @@ func (p *h3pkg) callees(from *ast.FuncDecl, ce *ast.CallExpr) []*ast.FuncDecl {
 	return nil
 }
 
+// helperFn resolves a call to THE same-package function or method of that bare name (nil if none, several, or the
+// call goes through an imported package) for the symbolic walker.
+func (p *h3pkg) helperFn() func(*ast.CallExpr) *fnBody {
+	return func(ce *ast.CallExpr) *fnBody {
+		var file *ast.File
+		for _, f := range p.files {
+			if f.Pos() <= ce.Pos() && ce.Pos() < f.End() {
+				file = f
+			}
+		}
+		name := ""
+		switch f := ce.Fun.(type) {
+		case *ast.Ident:
+			name = f.Name
+		case *ast.SelectorExpr:
+			root := ast.Expr(f)
+			for {
+				if se, ok := root.(*ast.SelectorExpr); ok {
+					root = se.X
+					continue
+				}
+				break
+			}
+			if id, ok := root.(*ast.Ident); ok && file != nil && p.imports[file][id.Name] {
+				return nil
+			}
+			name = f.Sel.Name
+		default:
+			return nil
+		}
+		var found *ast.FuncDecl
+		for _, fd := range p.funcs[name] {
+			_, isSel := ce.Fun.(*ast.SelectorExpr)
+			if fd.Body == nil || (fd.Recv != nil) != isSel {
+				continue
+			}
+			if found != nil {
+				return nil
+			}
+			found = fd
+		}
+		if found == nil {
+			return nil
+		}
+		return mkFnBody(name, found.Type, found.Recv, found.Body)
+	}
+}
+
 // closure returns root and every same-package function reachable from it through calls.
 func (p *h3pkg) closure(root *ast.FuncDecl) []*ast.FuncDecl {
 	seen := map[*ast.FuncDecl]bool{root: true}
@@ -280,7 +328,58 @@ func (p *h3pkg) sizeOverhead(fd *ast.FuncDecl) (int, error) {
 // and, if present, for errHeaderTooLarge (`errors.Is(err, errHeaderTooLarge)` → ErrCodeZ [+ 431 response]).
 // The conditions may be spelled as if statements or as cases of a tagless switch; a comparison
 // `err == errHeaderTooLarge` is NOT errors.Is and is reported.
-func errMapping(fd *ast.FuncDecl) (def, qp, tooLarge string, tooLargeRejects bool, err error) {
+//
+// What the errHeaderTooLarge branch DOES is read off a symbolic execution of its body (symwalk.go) that follows
+// same-package helpers with their parameters bound to the arguments — so it does not matter whether the reset and
+// the 431 answer are written inline or extracted into helpers, nor what those helpers are called:
+//
+//	tooLarge        = the single ErrCode… constant handed to a CancelRead call the branch reaches ("" if none / several)
+//	tooLargeRejects = the branch reaches WriteHeader(http.StatusRequestHeaderFieldsTooLarge) (or the literal 431)
+func errMapping(pkg *h3pkg, fd *ast.FuncDecl) (def, qp, tooLarge string, tooLargeRejects bool, err error) {
+	branchEffects := func(body ast.Node) (code string, sends431 bool) {
+		codes := map[string]bool{}
+		sw := &symWalker{helper: pkg.helperFn(), maxDepth: 3}
+		sw.onCall = func(_, r *ast.CallExpr, _ int) bool {
+			switch callName(r) {
+			case "CancelRead":
+				for _, a := range r.Args {
+					if c := errCodeIdent(a); c != "" {
+						codes[c] = true
+					} else {
+						codes["?"] = true
+					}
+				}
+				return false
+			case "WriteHeader":
+				if len(r.Args) == 1 {
+					if identsIn(r.Args[0])["StatusRequestHeaderFieldsTooLarge"] {
+						sends431 = true
+					}
+					if bl, ok := r.Args[0].(*ast.BasicLit); ok && bl.Value == "431" {
+						sends431 = true
+					}
+				}
+				return false
+			}
+			return true
+		}
+		var stmts []ast.Stmt
+		switch b := body.(type) {
+		case *ast.BlockStmt:
+			stmts = b.List
+		case ast.Stmt:
+			stmts = []ast.Stmt{b}
+		}
+		sw.walk(stmts, symEnv{}, 0)
+		if len(codes) == 1 {
+			for c := range codes {
+				if c != "?" {
+					code = c
+				}
+			}
+		}
+		return
+	}
 	var defs []string
 	eqCompare := false
 	branch := func(cond ast.Expr, body ast.Node) {
@@ -303,8 +402,7 @@ func errMapping(fd *ast.FuncDecl) (def, qp, tooLarge string, tooLargeRejects boo
 			qp = errCodeIdent(body)
 		}
 		if se.Sel.Name == "Is" && identsIn(ce)["errHeaderTooLarge"] {
-			tooLarge = errCodeIdent(body)
-			tooLargeRejects = identsIn(body)["rejectWithHeaderFieldsTooLarge"]
+			tooLarge, tooLargeRejects = branchEffects(body)
 		}
 	}
 	hasQpackVar := false
@@ -541,7 +639,7 @@ func init() {
 		if hs == nil {
 			return fmt.Errorf("RawServerConn.handleRequestStream not found")
 		}
-		sd, sq, stl, srej, err := errMapping(hs)
+		sd, sq, stl, srej, err := errMapping(pkg, hs)
 		if err != nil {
 			problem(err)
 		}
@@ -553,7 +651,7 @@ func init() {
 		if rr == nil {
 			return fmt.Errorf("RequestStream.ReadResponse not found")
 		}
-		cd, cq, ctl, _, err := errMapping(rr)
+		cd, cq, ctl, _, err := errMapping(pkg, rr)
 		if err != nil {
 			problem(err)
 		}
@@ -583,7 +681,7 @@ func init() {
 			if err := emit("srvErrTooLarge", stl, "http3/server_conn.go handleRequestStream: code passed to CancelRead when errors.Is(err, errHeaderTooLarge)"); err != nil {
 				return err
 			}
-			w.P("/-- that branch calls rejectWithHeaderFieldsTooLarge (a 431 response) -/")
+			w.P("/-- that branch reaches WriteHeader(http.StatusRequestHeaderFieldsTooLarge) (a 431 response; same-package helpers followed) -/")
 			w.P("def srvTooLargeSends431 : Bool := %v", srej)
 		}
 		if err := emit("cliErrDefault", cd, "http3/stream.go RequestStream.ReadResponse: `errCode := …`"); err != nil {
